@@ -72,6 +72,10 @@ def race_case(first, second, n):
 
 def cases(tier, rng):
     out = gen.corpus(ID)
+    # safety net: seeded random schedules of these socket types over scripted pipes (partial reads, back-pressure,
+    # errors, futures polled once or twice and then ABANDONED, sockets dropped) — every line predicted by the World model
+    for i in range(150 if tier == "quick" else 3000):
+        out.append(wg.random_case(rng, f"random-world#{i}", ["SUB"], tags=("random-world",)))
     n = 0
     L = 4 if tier == "quick" else 5
     for l in range(0, L + 1):
